@@ -87,6 +87,14 @@ V("BL4-big-endian-dtype-order", "C15", "BL4",
   ("types.py", "            dtype = np.dtype([('seconds', '>i8'), ('second_fractions', '>u8')])", "            dtype = np.dtype([('second_fractions', '>u8'), ('seconds', '>i8')])"))
 V("BL4-little-literal-in-big-branch", "C15", "BL4",
   ("types.py", "            dtype = np.dtype([('seconds', '>i8'), ('second_fractions', '>u8')])", "            dtype = np.dtype([('seconds', '<i8'), ('second_fractions', '<u8')])"))
+V("BL4-encoder-packs-seconds-first", "C15", "BL4",
+  ("types.py", "        self.bytes = _struct_pack('<Qq', second_fractions, seconds)\n", "        self.bytes = _struct_pack('<Qq', seconds, second_fractions)\n"))
+V("BL4-raw-encoder-signed-fractions", "C15", "BL4",
+  ("timestamp.py", "        return _struct_pack('<Qq', self.second_fractions, self.seconds)\n", "        return _struct_pack('<qQ', self.second_fractions, self.seconds)\n"))
+V("BL4-read-little-fields-crossed", "C15", "BL4",
+  ("types.py", "            (second_fractions, seconds) = _struct_unpack(\n                endianness + 'Qq', data)\n", "            (seconds, second_fractions) = _struct_unpack(\n                endianness + 'Qq', data)\n"))
+V("BL4-getitem-indices-crossed", "C15", "BL4",
+  ("timestamp.py", "TdmsTimestamp(val[self._field_indices[0]], val[self._field_indices[1]])", "TdmsTimestamp(val[self._field_indices[1]], val[self._field_indices[0]])"))
 V("BL4-field-indices-swapped", "C15", "BL4",
   ("timestamp.py", "        if field_names == ('second_fractions', 'seconds'):\n            obj._field_indices = (1, 0)", "        if field_names == ('second_fractions', 'seconds'):\n            obj._field_indices = (0, 1)"))
 V("BL3-benign-rename-param", "C15", None,
